@@ -105,7 +105,7 @@ PROPS = {
         "exhaustive": True,
         "exhaustive_note": "the configuration x API space is enumerated completely; pattern lists and haystacks are sampled",
         "stages": {"quick": NATIVE_AND_CHECKED, "thorough": NATIVE_AND_CHECKED},
-        "floors": {"quick": {"evaluations": 300_000, "cells_expect_reject": 150_000, "cells_expect_accept": 100_000,
+        "floors": {"quick": {"searchers_from_option_less_constructors": 30, "evaluations": 300_000, "cells_expect_reject": 150_000, "cells_expect_accept": 100_000,
                              "cells_low_level_types": 2_000},
                    "thorough": {"evaluations": 5_000_000}},
         "timeout": T_DEFAULT,
